@@ -110,7 +110,12 @@ def gen_script(rng, futures=True, max_pre=12, allow_cycles=True):
         end = rng.choice(pool)
     else:
         end = rng.choice(pool) + rng.choice([1, 7, 250_000_000])
-    return dict(prog=prog, pre=pre, start=0, end=end, fuel=rng.choice([60, 150, 300]))
+    order = list(range(len(pre)))
+    mode = rng.random()
+    if mode < 0.35:
+        rng.shuffle(order)                     # one schedule([...]) call, list not in creation order
+    pre_mode = "single" if mode >= 0.6 else "batch"
+    return dict(prog=prog, pre=pre, start=0, end=end, fuel=rng.choice([60, 150, 300]), pre_mode=pre_mode, pre_order=order)
 
 
 # --------------------------------------------------------------------------- interpretation on the real code
@@ -130,6 +135,7 @@ class World:
         self.rlog = []             # harness-side future log: ["resolve", tick, time, f, v] / ["wait", tick, time, pid, fexpr]
         self.hid_owner = {}        # hook list id -> creation seq of the owning event
         self.pid_event = {}        # pid -> creation seq of the event whose handler started it
+        self.ctx_daemon = {}       # id(event.context) -> daemon flag of the event that owns the context
         self.created = []          # harness-side record of every Event it created: [seq, created_at_clock, time, daemon, target]
         self.seq_of = {}           # id(event) -> creation sequence number
 
@@ -184,6 +190,7 @@ def build_world(script):
         if e.get("label", -1) >= 0:
             w.labels[e["label"]] = ev
         w.seq_of[id(ev)] = len(w.created)
+        w.ctx_daemon[id(ev.context)] = bool(e["daemon"])
         if hooks:
             w.hid_owner[hid] = len(w.created)
         w.keep.append(ev)
@@ -212,9 +219,11 @@ def build_world(script):
             super().__init__(f"e{idx}")
             self.idx = idx
             self.table = table
+            self.count = 0             # public metric: events handled (MetricBreakpoint target)
 
         def handle_event(self, event):
             t = int(event.event_type[1:])
+            self.count += 1
             w.ulog.append(["handle", self.now.nanoseconds, self.idx, t])
             beh = self.table.get(t) or self.table.get(str(t))
             if beh is None:
@@ -267,6 +276,22 @@ def build_world(script):
     return w
 
 
+def schedule_pre(sim, w, script):
+    """Create the pre-run events in spec order (creation order), then schedule them one by
+    one or as one list, possibly not in creation order; apply pre-run cancellations."""
+    evs = [w.mk_event(0, dict(ps["emit"], dt=ps["time"])) for ps in script["pre"]]
+    order = script.get("pre_order") or list(range(len(evs)))
+    if script.get("pre_mode", "single") == "batch" and evs:
+        sim.schedule([evs[i] for i in order])
+    else:
+        for i in order:
+            sim.schedule(evs[i])
+    for ev, ps in zip(evs, script["pre"]):
+        if ps["cancel"]:
+            ev.cancel()
+    return evs
+
+
 def instrument_pops(sim, pops, limit, w=None):
     heap = sim._event_heap
     orig = heap.pop
@@ -283,7 +308,8 @@ def instrument_pops(sim, pops, limit, w=None):
                      1 if type(ev).__name__ == "ProcessContinuation" else 0, disp, ev._sort_index,
                      w.seq_of.get(id(ev)) if w is not None else None, clock.now.nanoseconds,
                      sum(1 for x in heap._heap if not x.daemon) + (0 if ev.daemon else 1),
-                     bool(getattr(ev.target, "_crashed", False)), id(ev)])
+                     bool(getattr(ev.target, "_crashed", False)), id(ev),
+                     (bool(ev.daemon), w.ctx_daemon.get(id(ev.context))) if w is not None else None])
         return ev
     heap.pop = pop
     return orig
@@ -304,11 +330,7 @@ def run_script(script, mode="plain", control_script=None):
     sim = Simulation(start_time=Instant(script["start"]),
                      end_time=None if script["end"] is None else Instant(script["end"]),
                      entities=list(w.entities), **kwargs)
-    for ps in script["pre"]:
-        ev = w.mk_event(0, dict(ps["emit"], dt=ps["time"]))
-        sim.schedule(ev)
-        if ps["cancel"]:
-            ev.cancel()
+    schedule_pre(sim, w, script)
     pops = []
     w.sim_clock[0] = sim._clock
     w.prerun[0] = False
@@ -461,13 +483,17 @@ def gen_bp(rng):
     one = rng.random() < 0.5
     if k < 0.35:
         return ["bp", "time", rng.choice([0, 1, 1000, 500_000_000, 1_000_000_000, 2_000_000_000]), one]
-    if k < 0.7:
+    if k < 0.6:
         return ["bp", "count", rng.randint(0, 8), one]
-    return ["bp", "type", rng.randrange(4), one]
+    if k < 0.8:
+        return ["bp", "type", rng.randrange(4), one]
+    # MetricBreakpoint on an entity's handled-events counter, incl. conditions true at value 0
+    return ["bp", "metric", rng.randrange(6), one, rng.randrange(6), rng.choice([0, 0, 1, 2, 3])]
 
 
 def run_session(script, cmds, hooks=True):
-    from happysimulator.core.control.breakpoints import EventCountBreakpoint, EventTypeBreakpoint, TimeBreakpoint
+    from happysimulator.core.control.breakpoints import (EventCountBreakpoint, EventTypeBreakpoint, MetricBreakpoint,
+                                                         TimeBreakpoint)
     from happysimulator.core.simulation import Simulation
     from happysimulator.core.temporal import Instant
     from hsverif.util import Timeout, time_limit
@@ -476,11 +502,7 @@ def run_session(script, cmds, hooks=True):
     sim = Simulation(start_time=Instant(script["start"]),
                      end_time=None if script["end"] is None else Instant(script["end"]),
                      entities=list(w.entities))
-    for ps in script["pre"]:
-        ev = w.mk_event(0, dict(ps["emit"], dt=ps["time"]))
-        sim.schedule(ev)
-        if ps["cancel"]:
-            ev.cancel()
+    schedule_pre(sim, w, script)
     pops = []
     w.sim_clock[0] = sim._clock
     w.prerun[0] = False
@@ -518,6 +540,10 @@ def run_session(script, cmds, hooks=True):
                         ctl.add_breakpoint(TimeBreakpoint(time=Instant(cmd[2]), one_shot=cmd[3]))
                     elif cmd[1] == "count":
                         ctl.add_breakpoint(EventCountBreakpoint(count=cmd[2], one_shot=cmd[3]))
+                    elif cmd[1] == "metric":
+                        ctl.add_breakpoint(MetricBreakpoint(entity_name=f"e{cmd[2]}", attribute="count",
+                                                            operator=["gt", "ge", "lt", "le", "eq", "ne"][cmd[4]],
+                                                            threshold=cmd[5], one_shot=cmd[3]))
                     else:
                         ctl.add_breakpoint(EventTypeBreakpoint(event_type=tname(cmd[2]), one_shot=cmd[3]))
         except Watchdog:
@@ -553,6 +579,8 @@ def enc_cmd(c):
         return Raw("CmdResume")
     if c[0] == "clear":
         return Raw("CmdClearBps")
+    if c[1] == "metric":
+        return Ctor("CmdAddBp", Ctor("BMetric", c[2], c[4], c[5], bool(c[3])))
     kind = {"time": "BTime", "count": "BCount", "type": "BType"}[c[1]]
     return Ctor("CmdAddBp", Ctor(kind, c[2], bool(c[3])))
 
